@@ -32,7 +32,7 @@ def methodTable : List (String × Bool × String) :=
    ("FileSystem.apply_timestep", true, "step .tick"),
    ("FileSystem.pre_timestep", true, "step .preTick / stepX .preTick"),
    ("FileSystem.scan", true, "scanAll: the instant_scan=True call of the node scan (the timed branch starts folder scans one by one and is not called from the node)"),
-   ("FileSystem.reveal_to_red", false, "revealed_to_red flags are not modelled"),
+   ("FileSystem.reveal_to_red", true, "no structural effect: a plain loop over the live folders calling the (inert) Folder.reveal_to_red (round 7)"),
    ("FileSystem.restore_folder", true, "restoreFolder"),
    ("FileSystem.restore_file", true, "restoreFile"),
    ("FileSystem.access_file", true, "access / reqTouch"),
@@ -44,7 +44,7 @@ def methodTable : List (String × Bool × String) :=
    ("Folder.apply_timestep", true, "restoringTimestep + ledger tick (scan countdown)"),
    ("Folder.pre_timestep", true, "stepX .preTick (num_access of live files)"),
    ("Folder._scan_timestep", true, "ledger: scanCd / tickTouch"),
-   ("Folder._reveal_to_red_timestep", false, "red-scan countdown and flags are not modelled"),
+   ("Folder._reveal_to_red_timestep", true, "no structural effect: checked to be structurally inert by the extractor (round 7)"),
    ("Folder._restoring_timestep", true, "Folder.restoringTimestep"),
    ("Folder.get_file", true, "Folder.getFile"),
    ("Folder.get_file_by_id", true, "uuid lookups of the *_by_id API operations and of the timestep loops"),
@@ -58,7 +58,7 @@ def methodTable : List (String × Bool × String) :=
    ("Folder.unquarantine", false, "stub (pass)"),
    ("Folder.quarantine_status", false, "stub (pass)"),
    ("Folder.scan", true, "Folder.verb .scan + ledger scanStart; instant branch = scanAll"),
-   ("Folder.reveal_to_red", false, "revealed_to_red flags are not modelled"),
+   ("Folder.reveal_to_red", true, "no structural effect: checked to be structurally inert by the extractor (round 7)"),
    ("Folder.check_hash", true, "Folder.verb .checkhash (always False); translated"),
    ("Folder.repair", true, "Folder.verb .repair + reqTouch"),
    ("Folder.restore", true, "Folder.restore (translated with the folder's health)"),
@@ -67,11 +67,11 @@ def methodTable : List (String × Bool × String) :=
    ("File.__init__", false, "constructor: file type, size and sim_path are not modelled"),
    ("File.path", false, "string property"),
    ("File.size", false, "sizes are not modelled"),
-   ("File.apply_timestep", false, "calls super() only: no effect"),
+   ("File.apply_timestep", true, "no effect: checked to be structurally inert by the extractor (round 7)"),
    ("File.pre_timestep", true, "stepX .preTick (num_access := 0)"),
    ("File.describe_state", false, "health, size, type; the rig reads uuid and num_access from it"),
    ("File.scan", true, "File.verb .scan + touch (translated with health)"),
-   ("File.reveal_to_red", false, "revealed_to_red flags are not modelled"),
+   ("File.reveal_to_red", true, "no structural effect: checked to be structurally inert by the extractor (round 7)"),
    ("File.check_hash", true, "File.verb .checkhash (always False); translated"),
    ("File.repair", true, "File.verb .repair + touch (translated with health)"),
    ("File.corrupt", true, "File.verb .corrupt + touch (translated with health)"),
